@@ -2,6 +2,8 @@ import GramModel.Check
 import GramModel.Oracle
 import GramModel.Lemmas.Oracle
 import GramModel.Lemmas.Whnf
+import GramModel.Lemmas.Fuel
+import GramModel.Lemmas.UnifyAgree
 
 /-!
 # C06 — definitional equality used by the checker agrees with evaluation
@@ -108,3 +110,128 @@ example :
                 (.ite (.bin .lt (.var 1 0) (.var 2 1)) (.app (.lam 3 false .int (.neg (.var 3 0))) (.var 1 0)) .tt)) with
      | .ok r _, some r' => r == r' && r == .lit (-2)
      | _, _ => false) = true := by decide
+
+/-! ## Symmetry -/
+
+/-- On hole-free terms the conversion judgement is symmetric (at every fuel, in every context). -/
+def C06_conv_symm_stmt : Prop :=
+  ∀ (f : Nat) (Δ : DCtxX) (a b : Tm), a.holeFree = true → b.holeFree = true →
+    (∀ e ∈ Δ, ∀ d o, e = some (d, o) → d.holeFree = true) →
+    convX f Δ a b = convX f Δ b a
+theorem C06_conv_symm : C06_conv_symm_stmt :=
+  fun f Δ a b _ _ _ => FuelLemmas.convX_symm f Δ a b
+
+/-- Symmetry needs none of the hole-freeness assumptions: the only arms of `convX` that look at one
+side alone are the two hole arms, and they are symmetric as a pair. -/
+def C06_conv_symm_general_stmt : Prop :=
+  ∀ (f : Nat) (Δ : DCtxX) (a b : Tm), convX f Δ a b = convX f Δ b a
+theorem C06_conv_symm_general : C06_conv_symm_general_stmt := FuelLemmas.convX_symm
+
+/-! ## The two conversion checks agree -/
+
+/-- (First formulation, **refuted** below; kept, without the `_stmt` suffix, next to its refutation.)
+gram's own conversion check (the model of `unify`) and the independent checker's `convX` give the
+same verdict on hole-free terms under the same (hole-free) definitions context, whenever both answer;
+and on such terms `unify` leaves the whole state as it was (it solves nothing, pushes and pops in
+pairs) and never panics.  With `C06_conv_symm`, `C06_conv_refl` and the fuel-monotonicity of `convX`
+this transfers symmetry and reflexivity to gram's own judgement on hole-free terms. -/
+def C06_unify_layers_agree_unrestricted : Prop :=
+  ∀ (f : Nat) (a b : Tm) (s : St), a.holeFree = true → b.holeFree = true →
+    (∀ e ∈ s.dctx, ∀ d o, e = some (d, o) → d.holeFree = true) →
+    (∀ site, unifyS f a b s ≠ .panic site) ∧
+    ∀ (r : Bool) (s' : St), unifyS f a b s = .ok r s' →
+      s' = s ∧ ∀ (g : Nat) (r' : Bool), convX g s.dctx a b = some r' → r = r'
+
+/-- `C06_unify_layers_agree_unrestricted` is FALSE of the model as stated, in its first conjunct only:
+nothing in the hypotheses says that the two terms are *well scoped* in the definitions context.
+`unify` weak-head normalises both sides, and `normalize_weak_head` indexes the definitions context
+with the variable's de Bruijn index (`definitions_context[index]`), which panics for an index that is
+out of range.  Witness: the two distinct variables `x₀` and `x₁` under the empty context — the
+syntactic shortcut answers "different", then normalising `x₀` panics at
+`normalize_weak_head.definitions_context[index]`.  (Not a defect of the Rust code: the parser's
+resolver and the checker's context discipline only ever hand well-scoped terms to `unify`; the
+statement simply forgot the assumption.) -/
+theorem C06_unify_layers_agree_refuted : ¬ C06_unify_layers_agree_unrestricted := by
+  intro h
+  have hp : unifyS 3 (.var 0 0) (.var 0 1) {} =
+      .panic "normalize_weak_head.definitions_context[index]" := by rfl
+  exact (h 3 (.var 0 0) (.var 0 1) {} rfl rfl (fun e he => by cases he)).1 _ hp
+
+/-- Corrected statement, agreement part — **no scoping assumption at all**: on hole-free terms under a
+hole-free definitions context, the only panics `unify` can reach are the two context lookups of
+`normalize_weak_head` (an index outside the definitions context, or an entry whose offset exceeds
+`index + 1`): never `unsigned_shift(..).unwrap()`, never the `let`-after-normalisation arm; a run
+that answers leaves the whole state (store, both contexts, diagnostics) exactly as it was, and its
+verdict is the verdict of the independent `convX` at every fuel at which `convX` answers. -/
+def C06_unify_layers_agree_fixed_stmt : Prop :=
+  ∀ (f : Nat) (a b : Tm) (s : St), a.holeFree = true → b.holeFree = true →
+    (∀ e ∈ s.dctx, ∀ d o, e = some (d, o) → d.holeFree = true) →
+    (∀ site, unifyS f a b s = .panic site →
+      site = "normalize_weak_head.definitions_context[index]" ∨
+      site = "normalize_weak_head.index+1-offset") ∧
+    ∀ (r : Bool) (s' : St), unifyS f a b s = .ok r s' →
+      s' = s ∧ ∀ (g : Nat) (r' : Bool), convX g s.dctx a b = some r' → r = r'
+theorem C06_unify_layers_agree_fixed : C06_unify_layers_agree_fixed_stmt :=
+  fun f a b s ha hb hD => UnifyAgree.unify_agree f a b s ha hb hD
+
+/-- Corrected statement, panic-freedom part (the dropped first conjunct, with the assumption it
+needs): if moreover both terms are well scoped in the definitions context, and every definition
+recorded in the context has its offset in range (`off ≤ index + 1`) and is itself well scoped in the
+part of the context it was pushed over (the context minus the `index + 1 - off` entries pushed after
+its group — exactly what `type_check`'s group rule establishes and `pushD none` preserves), then
+`unify` does not panic at any site. -/
+def C06_unify_no_panic_stmt : Prop :=
+  ∀ (f : Nat) (a b : Tm) (s : St), a.holeFree = true → b.holeFree = true →
+    (∀ e ∈ s.dctx, ∀ d o, e = some (d, o) → d.holeFree = true) →
+    wellScoped s.dctx.length a = true → wellScoped s.dctx.length b = true →
+    (∀ i d off, s.dctx[i]? = some (some (d, off)) →
+      off ≤ i + 1 ∧ wellScoped (s.dctx.length - (i + 1 - off)) d = true) →
+    ∀ site, unifyS f a b s ≠ .panic site
+theorem C06_unify_no_panic : C06_unify_no_panic_stmt :=
+  fun f a b s ha hb hD hsa hsb hS => UnifyAgree.unify_no_panic f a b s ha hb hD hsa hsb hS
+
+/-- The same for the normalizer alone, with the fact the induction carries: the weak head normal
+form of a well-scoped hole-free term is well scoped. -/
+def C06_whnf_no_panic_stmt : Prop :=
+  ∀ (f : Nat) (t : Tm) (s : St), t.holeFree = true →
+    (∀ e ∈ s.dctx, ∀ d o, e = some (d, o) → d.holeFree = true) →
+    wellScoped s.dctx.length t = true →
+    (∀ i d off, s.dctx[i]? = some (some (d, off)) →
+      off ≤ i + 1 ∧ wellScoped (s.dctx.length - (i + 1 - off)) d = true) →
+    (∀ site, whnfS f t s ≠ .panic site) ∧
+    ∀ r s', whnfS f t s = .ok r s' → wellScoped s.dctx.length r = true
+theorem C06_whnf_no_panic : C06_whnf_no_panic_stmt :=
+  fun f t s ht hD hst hS => UnifyAgree.whnf_no_panic f t s ht hD hst hS
+
+-- non-vacuity: both checks answer, with the same verdict, on two different convertible functions
+-- (β-redex and arithmetic under a binder, a definition from the context), and on two inconvertible ones;
+-- the context satisfies the scoping assumption of `C06_unify_no_panic`
+example :
+    (match unifyS 40 (.lam 1 false .int (.bin .sum (.var 1 0) (.var 2 1)))
+              (.lam 3 false .int (.app (.lam 4 false .int (.bin .sum (.var 4 0) (.lit 5))) (.var 3 0)))
+              { dctx := [some (.lit 5, 1)], tctx := [(.int, 1)], nerrs := 7 },
+           convX 40 [some (.lit 5, 1)] (.lam 1 false .int (.bin .sum (.var 1 0) (.var 2 1)))
+              (.lam 3 false .int (.app (.lam 4 false .int (.bin .sum (.var 4 0) (.lit 5))) (.var 3 0))) with
+     | .ok r s', some r' => r == r' && r == true && s'.dctx == [some (.lit 5, 1)] && s'.nerrs == 7
+     | _, _ => false) = true := by decide
+example :
+    (match unifyS 40 (.lam 1 false .int (.bin .sum (.lit 3) (.var 2 1)))
+              (.lam 3 false .int (.app (.lam 4 false .int (.bin .sum (.lit 2) (.lit 5))) (.var 3 0)))
+              { dctx := [some (.lit 5, 1)] },
+           convX 40 [some (.lit 5, 1)] (.lam 1 false .int (.bin .sum (.lit 3) (.var 2 1)))
+              (.lam 3 false .int (.app (.lam 4 false .int (.bin .sum (.lit 2) (.lit 5))) (.var 3 0))) with
+     | .ok r s', some r' => r == r' && r == false && s'.dctx == [some (.lit 5, 1)]
+     | _, _ => false) = true := by decide
+
+/-- Consequence: on hole-free terms gram's own judgement is symmetric whenever it answers both ways
+and the independent check answers at all. -/
+def C06_unify_symm_stmt : Prop :=
+  ∀ (f f' g : Nat) (a b : Tm) (s s1 s2 : St) (r1 r2 r' : Bool), a.holeFree = true → b.holeFree = true →
+    (∀ e ∈ s.dctx, ∀ d o, e = some (d, o) → d.holeFree = true) →
+    unifyS f a b s = .ok r1 s1 → unifyS f' b a s = .ok r2 s2 → convX g s.dctx a b = some r' → r1 = r2
+theorem C06_unify_symm : C06_unify_symm_stmt := by
+  intro f f' g a b s s1 s2 r1 r2 r' ha hb hD h1 h2 hx
+  have e1 := ((C06_unify_layers_agree_fixed f a b s ha hb hD).2 r1 s1 h1).2 g r' hx
+  have hx' : convX g s.dctx b a = some r' := by rw [FuelLemmas.convX_symm]; exact hx
+  have e2 := ((C06_unify_layers_agree_fixed f' b a s hb ha hD).2 r2 s2 h2).2 g r' hx'
+  exact e1.trans e2.symm
